@@ -203,3 +203,17 @@ func (p *Program) ImportedType(pkg, name string) types.Type {
 	}
 	return sp.Type(name).Type()
 }
+
+// FieldIndex returns the index of the named field of struct type t (-1 if absent).
+func FieldIndex(t types.Type, name string) int {
+	st, ok := t.Underlying().(*types.Struct)
+	if !ok {
+		return -1
+	}
+	for i := 0; i < st.NumFields(); i++ {
+		if st.Field(i).Name() == name {
+			return i
+		}
+	}
+	return -1
+}
